@@ -850,3 +850,37 @@ def summarise_block(engine, ctx, b: Binding, run, cleanup) -> List[Any]:
         ctx.bound, ctx.bound_guards, ctx.bound_patterns, ctx.gen_facts = saved_bound
         del ctx.obligations[n_obl:]
     return normal
+
+
+def argminmax_iter(engine, ctx, it, keyfn, is_min: bool):
+    """min(seq, key=f) / max(seq, key=f): an element whose key is minimal (maximal); the first such one."""
+    if isinstance(it, Obj) and it.cls.lookup("__iter__") is not None:
+        it = engine.call_function(ctx, it.cls.lookup("__iter__"), [it], {}, dynamic=True)
+    if is_concrete_iterable(it):
+        items = engine.iter_concrete(ctx, it)
+        if not items:
+            raise engine.lib.raise_ext("ValueError")
+        best = items[0]
+        bk = engine.call(ctx, keyfn, [best], {})
+        for x in items[1:]:
+            k = engine.call(ctx, keyfn, [x], {})
+            better = engine.lib.order(ctx, ast.Lt() if is_min else ast.Gt(), k, bk)
+            if ctx.decide(lift_bool_truth(engine, ctx, better)):
+                best, bk = x, k
+        return best
+    if not isinstance(it, SymSeq):
+        raise EngineLimit("min/max with key over %r" % (it,))
+    if ctx.decide(it.length <= 0):
+        raise engine.lib.raise_ext("ValueError")
+    m = V.MappedIter(keyfn, it)
+    b, v, gs, src = symbolic_template(engine, ctx, m)
+    kt = V.Int.unwrap(v)
+    w = ctx.fresh("argbest", z3.IntSort())
+    i = z3.FreshConst(z3.IntSort(), "i")
+    key_at = lambda t: z3.substitute(kt, (b.consts[0], t))
+    ctx.assume(z3.And(0 <= w, w < it.length))
+    cmp_all = key_at(w) <= key_at(i) if is_min else key_at(w) >= key_at(i)
+    cmp_strict = key_at(w) < key_at(i) if is_min else key_at(w) > key_at(i)
+    ctx.assume(z3.ForAll([i], z3.Implies(z3.And(0 <= i, i < it.length), cmp_all), patterns=[z3.Select(it.arr, i)]))
+    ctx.assume(z3.ForAll([i], z3.Implies(z3.And(0 <= i, i < w), cmp_strict), patterns=[z3.Select(it.arr, i)]))
+    return it.at(ctx, w)
